@@ -326,6 +326,111 @@ fn limits(run: &Arc<Run>) {
     }
 }
 
+/// The same property through the typed layer (`Snap`, `Builder`, UUID-identified item types):
+/// all ordered pairs of a few worlds, the delta taken through both wire forms, and applied into
+/// every kind of target object - a fresh one and one that held each of the other worlds before
+/// (what `Storage` does with its free list). The result must enumerate, look up and sum like B.
+fn snap_level(run: &Arc<Run>) {
+    use libtw2_gamenet_common::snap_obj::TypeId;
+    use libtw2_snapshot::snap::Builder;
+    use libtw2_snapshot::Snap;
+    let u1 = uuid::Uuid::from_bytes([0x11; 16]);
+    let u2 = uuid::Uuid::from_bytes([0x22; 16]);
+    type World = Vec<(TypeId, u16, Vec<i32>)>;
+    // (all UUID-typed items have one word, so that equal raw keys never differ in size: see the
+    // known finding about Delta::create)
+    let worlds: Vec<World> = vec![
+        vec![],
+        vec![(TypeId::Ordinal(1), 0, vec![5, 6]), (TypeId::Ordinal(2), 9, vec![4])],
+        vec![(TypeId::Uuid(u1), 3, vec![1]), (TypeId::Ordinal(1), 0, vec![5, 7])],
+        vec![(TypeId::Uuid(u2), 4, vec![2]), (TypeId::Uuid(u1), 5, vec![3])],
+        vec![(TypeId::Ordinal(3), 7, vec![])],
+        vec![(TypeId::Uuid(u2), 6, vec![9]), (TypeId::Uuid(u1), 3, vec![1])],
+        vec![(TypeId::Ordinal(1), 0, vec![5, 6])],
+    ];
+    let build = |w: &World| -> Snap {
+        let mut b = Builder::new();
+        for (t, id, d) in w {
+            b.add_item(*t, *id, d).expect("world fits");
+        }
+        b.finish()
+    };
+    let snaps: Vec<Snap> = worlds.iter().map(build).collect();
+    let view = |s: &Snap| -> Vec<(String, u16, Vec<i32>)> {
+        let mut v: Vec<_> = s.items().map(|i| (format!("{:?}", i.type_id), i.id, i.data.to_vec())).collect();
+        v.sort();
+        v
+    };
+    for ia in 0..worlds.len() {
+        for ib in 0..worlds.len() {
+            for it in 0..=worlds.len() {
+                for route in 0..3 {
+                    run.add_evals(1);
+                    let route_name = ["direct", "bytes", "ints"][route];
+                    let case = || json!({"from_world": ia, "to_world": ib, "target_held_world": if it == worlds.len() { json!("fresh") } else { json!(it) }, "route": route_name, "worlds": "see c09.rs snap_level()"});
+                    let r = vp_core::catch(|| -> Result<(), String> {
+                        let (a, b) = (&snaps[ia], &snaps[ib]);
+                        let mut d = Delta::new();
+                        d.create(b, a);
+                        d.create(a, b);
+                        let mut w: Vec<Warning> = Vec::new();
+                        let d = match route {
+                            0 => d,
+                            1 => {
+                                let bytes = {
+                                    let mut buf: Vec<u8> = Vec::with_capacity(1 << 16);
+                                    libtw2_packer::with_packer(&mut buf, |p| d.write(obj_size, p).map(|b| b.len())).map_err(|_| "delta does not fit".to_string())?;
+                                    buf
+                                };
+                                let mut d2 = Delta::new();
+                                d2.read(&mut w, obj_size, &mut Unpacker::new(&bytes)).map_err(|e| format!("reading the written delta fails: {:?}", e))?;
+                                d2
+                            }
+                            _ => {
+                                let mut ints = vec![0i32; 4096];
+                                let n = d.write_to_ints(obj_size, &mut ints).map_err(|_| "delta does not fit".to_string())?.len();
+                                let mut d3 = Delta::new();
+                                d3.read_from_ints(&mut w, obj_size, &mut IntUnpacker::new(&ints[..n])).map_err(|e| format!("reading the int delta fails: {:?}", e))?;
+                                d3
+                            }
+                        };
+                        let mut target = if it == worlds.len() { Snap::empty() } else { snaps[it].clone() };
+                        target.read_with_delta(&mut w, a, &d).map_err(|e| format!("apply fails: {:?}", e))?;
+                        if !w.is_empty() {
+                            return Err(format!("warnings {:?}", w));
+                        }
+                        let want = view(b);
+                        if target.items().len() != want.len() {
+                            return Err(format!("items().len() is {}, the target snapshot has {} items", target.items().len(), want.len()));
+                        }
+                        if view(&target) != want {
+                            return Err(format!("applying the delta gives {:?}, expected {:?}", view(&target), want));
+                        }
+                        for (t, id, data) in &worlds[ib] {
+                            if target.item(*t, *id) != Some(&data[..]) {
+                                return Err(format!("item({:?}, {}) of the result is {:?}", t, id, target.item(*t, *id)));
+                            }
+                        }
+                        if target.crc() != b.crc() {
+                            return Err(format!("checksum {} != {}", target.crc(), b.crc()));
+                        }
+                        Ok(())
+                    });
+                    match r {
+                        Ok(Ok(())) => run.class(&format!("typed:{}:{}", if it == worlds.len() { "fresh-target" } else { "reused-target" }, ["direct", "bytes", "ints"][route]), case),
+                        Ok(Err(d)) => {
+                            run.violation(&format!("c09:typed:{}", d.split(|c: char| c.is_ascii_digit() || c == '[' || c == '(').next().unwrap_or("").trim()), &d, case());
+                        }
+                        Err(p) => {
+                            run.violation(&format!("c09:typed:{}", vp_core::panic_sig(&p)), &p, case());
+                        }
+                    }
+                }
+            }
+        }
+    }
+}
+
 fn main() {
     let run = Run::new("C09", "exploration");
     let thorough = run.tier == vp_core::Tier::Thorough;
@@ -355,10 +460,11 @@ fn main() {
         run_universe(&run, u);
     }
     limits(&run);
+    snap_level(&run);
     run.assume("comparison with the DDNet reference is restricted to the reference's own domain (type ids <= 0x3fff, static sizes only for types < 64); outside it the reference aborts the process");
     run.assume("the comparison with the reference hands the items to both builders in ascending key order; the create/apply/wire oracles are additionally run with the items inserted in descending and rotated order");
     run.finish(
-        "all ordered pairs of all snapshots over universes of 4 and 5 keys, each key absent or carrying one of 3 (quick) / 4 (thorough) data vectors (lengths 0..3, values from {0,1,-1,MIN,MAX,0x12345678}; type 1 has a pre-agreed size; one universe pre-agrees the size of every type, below and above 0x4000 and 0x8000): delta create -> apply, via bytes, via ints (every Delta / snapshot object involved is a reused one that held other content before), DDNet reference delta applied here, serialization compared with the reference builder; the same pairs with the items inserted in descending / rotated order (create -> apply, via bytes, via ints); plus limit families (1024 items, ~64 KiB) and a grid of snapshot pairs with 0..1024 items each that share none, half or all of their keys (up to 1024 deleted plus 1024 updated items in one delta)",
+        "all ordered pairs of all snapshots over universes of 4 and 5 keys, each key absent or carrying one of 3 (quick) / 4 (thorough) data vectors (lengths 0..3, values from {0,1,-1,MIN,MAX,0x12345678}; type 1 has a pre-agreed size; one universe pre-agrees the size of every type, below and above 0x4000 and 0x8000): delta create -> apply, via bytes, via ints (every Delta / snapshot object involved is a reused one that held other content before), DDNet reference delta applied here, serialization compared with the reference builder; the same pairs with the items inserted in descending / rotated order (create -> apply, via bytes, via ints); plus the typed layer (Snap / Builder with UUID-identified types): all ordered pairs of seven worlds x three routes x target objects that are fresh or held each of the worlds before - enumeration, item count, lookup by type and id, checksum; plus limit families (1024 items, ~64 KiB) and a grid of snapshot pairs with 0..1024 items each that share none, half or all of their keys (up to 1024 deleted plus 1024 updated items in one delta)",
         true,
     );
 }
